@@ -281,7 +281,7 @@ func solveOne(o *Obligation, timeoutS, seed int, prelude string, mu *sync.Mutex,
 		mu.Unlock()
 		if ok {
 			tag := fmt.Sprintf(" (quantifier-free: %d instances)", ninst)
-			qt := min(timeoutS, 12)
+			qt := min(timeoutS, 30)
 			if o.Name == "combined" {
 				qt = min(timeoutS, 5)
 			}
